@@ -33,7 +33,7 @@ def _nonlocal_writes(a, roots=None):
 
 def _mutable(H, a, ref):
     k = H.kind_of(ref, a)
-    return not (k in ('imm', 'str', 'tuple') or ref[0] in ('Imm',))
+    return not (k in ('imm', 'str', 'tuple', 'setting') or ref[0] in ('Imm',))
 
 
 @rule('E1', 'wrapped-frozen: no AnsiStr method writes through the wrapped AnsiString or lets it escape; __new__ stores the object '
